@@ -9,7 +9,7 @@
    while holding a result-file lock wedges result collection) is exactly a run in which it does not;
    decided on impl by the oracles of harness/syscheck.py. *)
 From Coq Require Import List ZArith NArith Bool.
-From Jade Require Import Base System SystemMonitors SystemProofs SystemTheorems SystemProgress.
+From Jade Require Import Base System SystemMonitors SystemProofs SystemInv SystemTheorems SystemProgress SystemStatus.
 From Jade.Props Require Import SysExamples.
 Import ListNotations.
 Open Scope N_scope.
@@ -37,6 +37,16 @@ Theorem c12_completion_after_loss_partial : forall sc tr0 tr1 p b tr2 s0 s', run
   (exists e, In e tr1 /\ sbatch_ok e = true) \/ b = true.
 Proof. exact progress_run. Qed.
 Print Assumptions c12_completion_after_loss_partial.
+
+(* "once no batch remains active": the completion check returns true either because every job is done or - the forced
+   completion that reports the rest as missing - when no batch at all is queued or running any more, whatever faults
+   came before (a batch the status does not list included: the round's own queue covers it) *)
+Theorem c12_forced_completion_only_when_nothing_active : forall sc tr1 p tr2 s,
+  run sc (tr1 ++ ECheckComplete p true :: tr2) = Some s ->
+  exists s1 r, run sc tr1 = Some s1 /\ holder s1 = Some r /\
+    ((forall j, In j (all_jobs sc) -> r_st r j = DONE) \/ act_ids (hpc s1) = []).
+Proof. exact forced_completion_only_when_nothing_active. Qed.
+Print Assumptions c12_forced_completion_only_when_nothing_active.
 
 (* batch 1 is lost while job 0 runs (node killed, job 1 never started), the next round's sbatch
    fails: nothing is active, the round completes the submission with all three jobs missing *)
